@@ -330,6 +330,8 @@ fn judge(rec: &mut Rec, anoms: &mut Vec<String>, not_judged: bool, text: String)
 
 const KF5_TEXT: &str = "KF-C10-5 startup hands a released blocked ChannelMonitorUpdate to chain::Watch before the replay of an earlier in-flight update of the same channel: the MonitorUpdatesComplete background event of ANOTHER channel (all of its in-flight updates are already in its monitor) runs a completion action that releases the blocked update while the channel's own MonitorUpdateRegeneratedOnStartup is still queued (background-event order follows per_peer_state hash order, so it happens on some restarts only); ChannelMonitor::update_monitor panics 'Attempted to apply ChannelMonitorUpdates out of order' and the node cannot start";
 
+const KF6_TEXT: &str = "KF-C10-6 an HTLC in the holding cell of a stale ChannelManager's channel (closed as OutdatedChannelManager) is failed back without consulting the ChannelMonitor (dropped_outbound_htlcs), although the newer monitor lists the same HTLC as committed to the counterparty and unresolved: the counterparty can still claim it on chain after the upstream HTLC was failed (forwarder loses the amount) / after PaymentFailed was reported";
+
 /// Re-runs the scenario of world `w` in a fresh Net and restarts t a dozen times from the world's bytes with an ASYNCHRONOUS persister
 /// (same reload path): Some(panic text, k of n) if any of the restarts panics, None if the node starts every time.
 fn confirm_with_async_persister(seed: u64, topo: usize, flavor: u64, t: usize, async_t: bool, n_ops: usize, w: &World) -> Option<String> {
@@ -511,12 +513,16 @@ fn main() {
 				let closed_hops: Vec<(usize, u64)> = (0..my.len()).filter(|c| closed_at_load(w, *c)).flat_map(|c| pts[w.mon_pts[c]].views[c].prev_hops.clone()).collect();
 				let collision = pts[w.q].queued_fwd.iter().chain(pts[w.q].queued_dec.iter()).any(|(ci, id)| my.iter().position(|m| m.0 == *ci).map(|k| !closed_at_load(w, k)).unwrap_or(false)
 					&& !closed_hops.contains(&(*ci, *id)) && closed_hops.iter().any(|(cj, idj)| idj == id && cj != ci));
+				// bucket 6 (directed): some monitor copy of the world carries the PREIMAGE of a forwarded HTLC (pending_claims_to_replay is not empty
+				// unless the inbound edge has nothing claimable)
+				let has_preimage = (0..my.len()).any(|c| pts[w.mon_pts[c]].extras[c].mon_htlcs.iter().any(|l| l.starts_with("prev:") && l.ends_with("preimage=1")));
 				if collision { 5 }
 				else if queued_open && (0..my.len()).any(|c| closed_at_load(w, c)) { 4 }
+				else if has_preimage { 6 }
 				else if (0..my.len()).any(|c| closed_at_load(w, c)) { 2 } else if w.q == w.p { 0 } else { 1 }
 			};
-			let quota = [worlds_per_scen * 5 / 20, worlds_per_scen * 5 / 20, worlds_per_scen * 3 / 20, worlds_per_scen * 3 / 20, worlds_per_scen * 2 / 20, worlds_per_scen * 2 / 20];
-			let mut taken = [0usize; 6];
+			let quota = [worlds_per_scen * 5 / 20, worlds_per_scen * 5 / 20, worlds_per_scen * 3 / 20, worlds_per_scen * 3 / 20, worlds_per_scen * 2 / 20, worlds_per_scen * 2 / 20, worlds_per_scen * 2 / 20];
+			let mut taken = [0usize; 7];
 			let mut per_key: BTreeMap<String, usize> = BTreeMap::new();
 			let mut keep = vec![]; let mut rest = vec![];
 			for w in worlds.drain(..) {
@@ -654,12 +660,30 @@ fn main() {
 						format!("{}:{}", src, if l.ends_with("reason=ChannelClosed") { "C" } else if l.ends_with("reason=OnChainTimeout") { "O" } else { "?" }) }).collect();
 					let count = |v: &Vec<String>, pat: &str| v.iter().filter(|l| l.starts_with("event #") && l.contains(pat)).count();
 					let post_evs: Vec<String> = dump.iter().filter(|l| l.starts_with("event #")).cloned().collect();
-					let ans = format!("claims={} fails={} pays={} evs=s{},f{}", join_sorted(cl), join_sorted(fl), payline(&parsed_post, false),
-						count(&post_evs, " PaymentSent {").saturating_sub(count(&q0.evq, " PaymentSent {")), count(&post_evs, " PaymentFailed {").saturating_sub(count(&q0.evq, " PaymentFailed {")));
+					// PaymentSent / PaymentFailed generated by the read, BY CONTENT: the payments (canonical index) of the events in the rebuilt
+					// manager's queue minus those the manager copy already had queued (multiset difference)
+					let ev_ids = |v: &Vec<String>, pat: &str| -> Vec<usize> { let mut o: Vec<usize> = v.iter().filter(|l| l.starts_with("event #") && l.contains(pat)).filter_map(|l| keys.pays.iter().position(|id| l.contains(id.as_str()))).collect(); o.sort(); o };
+					let gen_ids = |pat: &str| -> String { let mut post = ev_ids(&post_evs, pat); for x in ev_ids(&q0.evq, pat) { if let Some(i) = post.iter().position(|y| *y == x) { post.remove(i); } }
+						if post.is_empty() { "-".to_string() } else { post.iter().map(|x| x.to_string()).collect::<Vec<_>>().join(";") } };
+					let _ = &count;
+					let ans = format!("claims={} fails={} pays={} evs=s{},f{}", join_sorted(cl), join_sorted(fl), payline(&parsed_post, false), gen_ids(" PaymentSent {"), gen_ids(" PaymentFailed {"));
 					let any_cl = decisions.iter().any(|l| l.starts_with("claim ")); let any_fl = decisions.iter().any(|l| l.starts_with("fail "));
 					rec.case(&op2, &ans, &format!("recon:{}{}{}", if any_cl { "claims" } else { "no-claim" }, if any_fl { "+fails" } else { "" }, if chans.iter().any(|c| c.0) { "+stale-closed" } else { "" }), any_cl || any_fl || !post_pays.is_empty());
 					if trace_on { eprintln!("    {} => {}", op2, ans); }
 				} else { rec.discarded += 1; if trace_on { eprintln!("    recon NOT COVERED pays_q={:?} post={:?} ex={:?} chan={:?} keys={:?}/{:?}", q0.pays, post_pays, ex, q0.extras.iter().map(|e| &e.chan_htlcs).collect::<Vec<_>>(), keys.pays, keys.privs); } }
+				// KF-C10-6 (implementation-side, independent of the Lean model): the read fails an HTLC back (reason ChannelClosed) although the
+				// monitor copy of a channel it closes as OutdatedChannelManager still lists the very same HTLC source as an outbound HTLC of the
+				// counterparty's commitment(s), without preimage and not replayed as a claim — the counterparty can still claim it on chain
+				for l in decisions.iter().filter(|l| l.starts_with("fail ") && l.ends_with("reason=ChannelClosed")) {
+					let key = l.split(' ').nth(1).unwrap_or("");
+					let claimed = decisions.iter().any(|c| c.starts_with("claim ") && c.split(' ').nth(1) == Some(key));
+					for k in 0..my.len() { if chans[k].0 && !claimed && ex[k].mon_htlcs.iter().any(|m| m.split(' ').next() == Some(key) && m.ends_with("preimage=0")) {
+						kf_fail(&mut rec, &mut kf_counts, format!("{} :: {} [{}] :: channel {} is closed as OutdatedChannelManager, its monitor copy (update id {}) lists {} as a pending outbound HTLC (no preimage), the manager copy (update id {}) has it in the holding cell / as a blocked LocalAnnounced HTLC ({}) and the read decides `{}`{}",
+							KF6_TEXT, tag, op, my[k].0, mv[k].mon_id, keys.src(key).unwrap_or(key.to_string()), qv[k].chan.map(|c| c[0]).unwrap_or(0),
+							wpts[w.q].extras[k].chan_htlcs.iter().find(|h| h.split(' ').next() == Some(key)).map(|h| h.split(' ').last().unwrap_or("")).unwrap_or("not listed"), l.split(' ').filter(|x| !x.starts_with("hash=")).collect::<Vec<_>>().join(" "),
+							if key.starts_with("route:") { " (own payment: PaymentFailed is generated)" } else { " (forwarded HTLC: update_fail_htlc goes upstream)" }));
+					} }
+				}
 				// wake-up events of every RESUMED channel
 				for &k in &open_q { if !chans[k].0 {
 					let c = qv[k].chan.unwrap(); let hexid = format!("{}", my[k].2);
@@ -848,6 +872,17 @@ fn main() {
 	rec.notes.insert("discarded_persister_mode_switch".into(), format!("{} worlds: the startup background events panic ('Watch::update_channel returned Completed while prior updates are still InProgress' / 'Attempted to apply ChannelMonitorUpdates out of order') only because the sim restarts the asynchronously persisting node with a synchronous persister; each was re-run and restarted 12 times with an asynchronous persister without a panic", persister_switch));
 	let (n_chain, chain_setup_errs) = chain_family(&mut rec, args);
 	rec.notes.insert("onchain_worlds".into(), format!("{} worlds with a channel closed on chain before the crash (payer / forwarder; commitment of either side, 0..ANTI_REORG_DELAY+2 blocks deep; PRESENT / DUST / ABSENT outbound HTLCs; manager written at the crash / before the blocks / before the close; optional shallow reorg to the counterparty's other commitment); {} could not be set up", n_chain, chain_setup_errs));
+	{
+		let (n_evt, evt_errs, pat) = evt_family(&mut rec, args);
+		rec.notes.insert("event_redelivery_worlds".into(), format!("{} worlds (1-2 payments over a channel closed on chain by either commitment, HTLC timeouts buried; the event handler accepts a prefix of 0..all pending events and replays the rest; restart from the manager written before the close / after it / after the failure was queued / after the partial handling, optionally crashing twice); {} could not be set up; in {} payments the restarted (older) manager keeps the payment pending although PaymentFailed had been handled before the crash (observation, not judged: the terminal event was delivered)", n_evt, evt_errs, pat));
+	}
+	match guarded(AssertUnwindSafe(|| kf6_probe(args.seed ^ 0x6F6))) {
+		Ok(Ok((text, Some(loss)))) => { *kf_counts.entry("KF-C10-6".to_string()).or_insert(0) += 1; rec.oracle_fail(format!("{} :: END-TO-END probe: {} :: {}", KF6_TEXT, loss, text)); rec.notes.insert("kf6_probe".into(), format!("loss reproduced: {}", text)); },
+		Ok(Ok((text, None))) => { rec.notes.insert("kf6_probe".into(), format!("no loss: {}", text)); },
+		Ok(Err(e)) => { rec.notes.insert("kf6_probe".into(), format!("could not be set up: {}", e)); },
+		Err(p) => { rec.notes.insert("kf6_probe".into(), format!("panicked: {}", p.chars().take(300).collect::<String>())); },
+	}
+	rec.notes.insert("known_findings_hit".into(), format!("{:?} (every occurrence counted; at most 4 per finding are listed)", kf_counts));
 	rec.notes.insert("reconstruction".into(), format!("{} admissible production-path worlds read a second time without side effects: pending_claims_to_replay / failed_htlcs (hook STARTUP_DECISIONS), pending_outbound_payments, generated PaymentSent / PaymentFailed and the background events of every resumed channel compared with Restart.claims / fails / paysAfter / bgEvents before any message is exchanged", n_recon));
 	rec.notes.insert("worlds".into(), format!("worlds={} admissible={} with_replay={} with_closed_channel={} second_crash={} settled={} discarded_nondeterministic_rerun={} discarded_stale_monitor_panic_after_read={}", n_worlds, n_adm, n_replay, n_closed, n_second, n_settled, nondet, late_panics));
 	rec.finish();
@@ -1003,6 +1038,232 @@ fn chain_family(rec: &mut Rec, args: &Args) -> (u64, u64) {
 		}
 	}
 	(n, errs)
+}
+
+// =====================================================================================================================
+// Persistent-event re-delivery: the handler handles a PREFIX of the pending events, the rest is replayed; crash in between
+// =====================================================================================================================
+/// One event re-delivery world.  Two nodes, legacy channel, t = 0 pays node 1 `n_pay` single-part payments that stay pending; the
+/// channel is closed on chain by t's own (`closer_t`) or the counterparty's commitment; the HTLCs time out, t's timeout claims are
+/// buried ANTI_REORG_DELAY deep and the manager queues PaymentPathFailed + PaymentFailed per payment (with a ReleasePaymentComplete
+/// completion action).  The application's handler accepts the first `k` pending events and returns Err(ReplayEvent) for the next; the
+/// release monitor updates of the handled ones are durable.  Crash; restart from the manager written (`mgr_pt`) 0 = before the close,
+/// 1 = after the close, 2 = after the failure was processed (events queued), 3 = after the partial handling; monitors as they are;
+/// `second`: crash again right after the restart.  Oracle (independent of the Lean model): every payment whose PaymentFailed the
+/// handler had not accepted before the crash gets PaymentFailed (or PaymentSent) delivered after the restart.
+/// VERIF_C10_EVT="n_pay:closer_t:k:mgr_pt:second".
+#[derive(Clone, Copy, Debug)]
+struct EvtWorld { n_pay: usize, closer_t: bool, k: usize, mgr_pt: usize, second: bool }
+
+fn pay_event_queue(net: &Net, t: usize) -> Vec<String> {
+	vh::manager_persisted_state_dump(net.nodes[t].node).iter().filter(|l| l.starts_with("event #")).map(|l| {
+		let kind = if l.contains(" PaymentPathFailed {") { "P" } else if l.contains(" PaymentFailed {") { "F" } else if l.contains(" PaymentSent {") { "S" } else { "x" };
+		format!("{}{}", kind, if l.contains("action=Some(ReleasePaymentComplete") { "*" } else { "" }) }).collect()
+}
+
+fn run_evt_world(w: EvtWorld, rec: &mut Rec, seed: u64, pending_after_terminal: &mut u64) -> Result<(), String> {
+	use lightning::chain::channelmonitor::ANTI_REORG_DELAY;
+	use lightning::events::{EventsProvider, ReplayEvent};
+	use lightning::ln::channelmanager::RecentPaymentDetails;
+	use lightning::ln::functional_test_utils::{connect_blocks, mine_transaction, test_legacy_channel_config};
+	use std::cell::{Cell, RefCell};
+	let key = format!("{}:{}:{}:{}:{}", w.n_pay, w.closer_t as u8, w.k, w.mgr_pt, w.second as u8);
+	let tag = format!("event re-delivery world {:?} [VERIF_C10_EVT={}] (seed {})", w, key, seed);
+	let mut rng = Rng::new(seed);
+	let cfg = test_legacy_channel_config();
+	let mut net = Net::new(2, vec![Some(cfg.clone()), Some(cfg)]);
+	net.open(0, 1, 1_000_000, 400_000_000);
+	let t = 0usize; let cid = net.chans[0].2;
+	let mut pays = vec![];
+	for _ in 0..w.n_pay { pays.push(net.send(&[0, 1], &[0], 3_000_000 + rng.below(20_000_000), 70)?); net.settle(8); }
+	let mut mgrs: Vec<(Vec<u8>, u32)> = vec![(net.nodes[t].node.encode(), net.nodes[t].best_block_info().1)];
+	// ---- close on chain ------------------------------------------------------------------------------------------------
+	let closing_tx = if w.closer_t {
+		let tx = net.nodes[t].chain_monitor.chain_monitor.get_monitor(cid).unwrap().unsafe_get_latest_holder_commitment_txn(&net.nodes[t].logger)[0].clone();
+		net.nodes[t].node.force_close_broadcasting_latest_txn(&cid, &net.ids[1], "closed by the application".to_string()).map_err(|e| format!("{:?}", e))?;
+		tx
+	} else { net.nodes[1].chain_monitor.chain_monitor.get_monitor(cid).unwrap().unsafe_get_latest_holder_commitment_txn(&net.nodes[1].logger)[0].clone() };
+	net.pump(t); net.process_events(t);
+	mine_transaction(&net.nodes[t], &closing_tx);
+	net.pump(t); net.process_events(t);
+	net.q.clear();
+	mgrs.push((net.nodes[t].node.encode(), net.nodes[t].best_block_info().1));
+	// ---- the HTLCs time out; t's timeout claims are buried -----------------------------------------------------------------
+	connect_blocks(&net.nodes[t], 70 + 8);
+	net.pump(t); net.process_events(t);
+	let closing_txid = closing_tx.compute_txid();
+	let bcast: Vec<bitcoin::Transaction> = net.nodes[t].tx_broadcaster.txn_broadcasted.lock().unwrap().clone();
+	let mut spent: BTreeSet<String> = BTreeSet::new(); let mut claims = vec![];
+	for tx in bcast.iter().rev() {
+		if tx.input.iter().all(|i| i.previous_output.txid == closing_txid) && tx.input.iter().all(|i| !spent.contains(&format!("{}", i.previous_output))) {
+			for i in &tx.input { spent.insert(format!("{}", i.previous_output)); }
+			claims.push(tx.clone());
+		}
+	}
+	if claims.is_empty() { return Err("no timeout claim was broadcast".into()); }
+	for tx in &claims { mine_transaction(&net.nodes[t], tx); }
+	connect_blocks(&net.nodes[t], ANTI_REORG_DELAY - 1);
+	net.pump(t);
+	let q2 = pay_event_queue(&net, t);
+	if q2.len() != 2 * w.n_pay || q2.iter().any(|x| x == "x" || x == "S") { return Err(format!("unexpected event queue after the timeouts: {:?}", q2)); }
+	mgrs.push((net.nodes[t].node.encode(), net.nodes[t].best_block_info().1));
+	// ---- the handler accepts a prefix --------------------------------------------------------------------------------------
+	let handled: RefCell<Vec<Event>> = RefCell::new(vec![]);
+	let cnt = Cell::new(0usize);
+	let handler = |ev: Event| -> Result<(), ReplayEvent> { if cnt.get() < w.k { cnt.set(cnt.get() + 1); handled.borrow_mut().push(ev); Ok(()) } else { Err(ReplayEvent()) } };
+	net.nodes[t].node.process_pending_events(&handler);
+	net.pump(t);
+	mgrs.push((net.nodes[t].node.encode(), net.nodes[t].best_block_info().1));
+	let handled_before: Vec<Event> = handled.borrow().clone();
+	let terminal_before = |id: &lightning::ln::channelmanager::PaymentId| handled_before.iter().any(|e| matches!(e, Event::PaymentFailed { payment_id, .. } if payment_id == id));
+	// ---- crash, restart -----------------------------------------------------------------------------------------------------
+	let tip = net.nodes[t].best_block_info().1;
+	let (mgr, mgr_height) = mgrs[w.mgr_pt].clone();
+	let ev0 = net.events[t].len();
+	for round in 0..(if w.second { 2 } else { 1 }) {
+		let mons = vec![net.nodes[t].chain_monitor.chain_monitor.get_monitor(cid).unwrap().encode()];
+		net.restart_from(t, &mgr, &mons).map_err(|e| format!("restart {} failed: {}", round, e))?;
+		if mgr_height < tip {
+			use lightning::chain::Listen;
+			let blocks: Vec<(bitcoin::Block, u32)> = net.nodes[t].blocks.lock().unwrap().iter().filter(|b| b.1 > mgr_height).cloned().collect();
+			for (blk, h) in blocks { net.nodes[t].node.block_connected(&blk, h); }
+			net.pump(t);
+		}
+	}
+	// ---- the model's prediction of the restarted manager (single payment), before any event is handled -------------------------
+	if w.n_pay == 1 {
+		let dump = vh::manager_persisted_state_dump(net.nodes[t].node);
+		let part = dump.iter().filter(|l| l.starts_with("outbound ")).filter_map(|l| parse_pay(l)).any(|p| !p.3.is_empty());
+		let q: Vec<String> = pay_event_queue(&net, t).into_iter().filter(|x| x != "x").collect();
+		let m = net.nodes[t].chain_monitor.chain_monitor.get_monitor(cid).unwrap();
+		let resolved = !vh::monitor_outbound_htlcs_dump(&m).iter().any(|l| l.starts_with("route:"));
+		let hk = format!("h{}", w.k);
+		let mut ops: Vec<&str> = match w.mgr_pt { 0 => vec!["persist", "close", "timeout", &hk], 1 => vec!["close", "persist", "timeout", &hk], 2 => vec!["close", "timeout", "persist", &hk], _ => vec!["close", "timeout", &hk, "persist"] };
+		ops.push("crash"); if w.second { ops.push("crash"); }
+		rec.case(&format!("evlife {}", ops.join(" ")), &format!("part={} queue={} resolved={} handledT={}", part as u8, if q.is_empty() { "-".to_string() } else { q.join(",") }, resolved as u8, terminal_before(&net.pays[pays[0]].id) as u8),
+			&format!("evlife:mgr{}:k{}{}", w.mgr_pt, w.k, if w.second { ":second" } else { "" }), true);
+	}
+	// ---- everything is handled now -------------------------------------------------------------------------------------------
+	for _ in 0..3 { net.process_events(t); net.pump(t); }
+	for &p in &pays {
+		let id = net.pays[p].id;
+		let after = net.events[t][ev0..].iter().any(|e| matches!(e, Event::PaymentFailed { payment_id, .. } if *payment_id == id) || matches!(e, Event::PaymentSent { payment_id: Some(pid), .. } if *pid == id));
+		let pending = net.nodes[t].node.list_recent_payments().iter().any(|d| matches!(d, RecentPaymentDetails::Pending { payment_id, .. } if *payment_id == id));
+		if !terminal_before(&id) && !after {
+			rec.oracle_fail(format!("{}: Event::PaymentFailed of payment {} was never accepted by the event handler before the crash (it accepted {} of {} pending events: {}) and is NOT re-delivered after the restart; payment still pending: {}",
+				tag, hex(&net.pays[p].hash.0[..4]), w.k.min(q2.len()), q2.len(), q2.join(","), pending));
+		} else if pending { *pending_after_terminal += 1; }
+	}
+	std::mem::forget(net);
+	Ok(())
+}
+
+fn evt_family(rec: &mut Rec, args: &Args) -> (u64, u64, u64) {
+	let mut worlds = vec![];
+	for n_pay in [1usize, 2] { for closer_t in [false, true] { for k in 0..=2 * n_pay { for mgr_pt in 0..4usize { for second in [false, true] {
+		worlds.push(EvtWorld { n_pay, closer_t, k, mgr_pt, second });
+	} } } } }
+	let mut rng = Rng::new(args.seed ^ 0xE7E7);
+	if !args.thorough {
+		// quick: every single-payment world without a second crash, a sample of the others
+		let (a, mut b): (Vec<EvtWorld>, Vec<EvtWorld>) = worlds.into_iter().partition(|w| w.n_pay == 1 && !w.second);
+		for i in (1..b.len()).rev() { let j = rng.below(i as u64 + 1) as usize; b.swap(i, j); }
+		b.truncate(16);
+		worlds = a; worlds.extend(b);
+	}
+	let only = std::env::var("VERIF_C10_EVT").ok();
+	let (mut n, mut errs, mut pat) = (0u64, 0u64, 0u64);
+	for w in worlds {
+		let key = format!("{}:{}:{}:{}:{}", w.n_pay, w.closer_t as u8, w.k, w.mgr_pt, w.second as u8);
+		if let Some(o) = &only { if *o != key { continue; } }
+		n += 1;
+		let seed = rng.next();
+		match guarded(AssertUnwindSafe(|| run_evt_world(w, rec, seed, &mut pat))) {
+			Ok(Ok(())) => {},
+			Ok(Err(e)) => { errs += 1; rec.discarded += 1; if std::env::var("VERIF_TRACE").is_ok() { eprintln!("evt world {} could not be set up: {}", key, e); } },
+			Err(p) => rec.oracle_fail(format!("event re-delivery world {:?} [VERIF_C10_EVT={}] (seed {}): panic: {}", w, key, seed, p.chars().take(200).collect::<String>())),
+		}
+	}
+	(n, errs, pat)
+}
+
+// =====================================================================================================================
+// KF-C10-6 end to end: the forwarder fails the upstream HTLC on restart, the downstream peer then claims the HTLC on chain
+// =====================================================================================================================
+/// Line 0 -c0- 1 -c1- 2 (legacy channels), node under test t = 1.  (1) t pays node 2 itself; node 2's revoke_and_ack is held back, so c1
+/// awaits it.  (2) node 0 pays node 2 through t: the HTLC is irrevocably committed on c0 and t's forward lands in c1's HOLDING CELL.
+/// (3) the ChannelManager is written (the copy that will be reloaded).  (4) node 2's revoke_and_ack arrives: the holding cell is freed,
+/// the forward is committed on c1 (monitor updates durable) and becomes claimable at node 2; nothing happens on c0.  (5) crash; restart
+/// from the manager of (3) and the current monitors: c0 is resumed, c1 is closed as OutdatedChannelManager.  (6) peers reconnect,
+/// everything is delivered.  (7) node 2 claims; t's commitment (broadcast by the close) and node 2's preimage claim confirm and are buried.
+/// Returns a description of what happened; `Some(loss)` when t failed the HTLC upstream AND node 2 collected it downstream.
+fn kf6_probe(seed: u64) -> Result<(String, Option<String>), String> {
+	use lightning::chain::channelmonitor::ANTI_REORG_DELAY;
+	use lightning::ln::functional_test_utils::{connect_blocks, mine_transaction, test_legacy_channel_config};
+	let mut rng = Rng::new(seed);
+	let cfg = test_legacy_channel_config();
+	let mut net = Net::new(3, vec![Some(cfg.clone()), Some(cfg.clone()), Some(cfg)]);
+	net.open(0, 1, 1_000_000, 400_000_000); net.open(1, 2, 1_000_000, 400_000_000);
+	let t = 1usize; let (c0, c1) = (net.chans[0].2, net.chans[1].2);
+	let v_c0_start = vh::channel_value_to_self_msat(net.nodes[t].node, &net.ids[0], &c0).ok_or("no c0")?;
+	// (1)
+	let _pa = net.send(&[1, 2], &[1], 2_000_000 + rng.below(3_000_000), 70)?;
+	for _ in 0..2 { net.deliver(1, 2).ok_or("1>2 message missing")?; }
+	// (2)
+	let amt_b = 5_000_000 + rng.below(20_000_000);
+	let pb = net.send(&[0, 1, 2], &[0, 1], amt_b, 70)?;
+	for _ in 0..30 { if net.queued(0, 1) > 0 { net.deliver(0, 1); } else if net.queued(1, 0) > 0 { net.deliver(1, 0); } else { break; } }
+	for _ in 0..3 { if net.nodes[t].node.needs_pending_htlc_processing() { net.forward(t); } }
+	let held = vh::channel_outbound_htlc_sources(net.nodes[t].node, &net.ids[2], &c1);
+	if !held.iter().any(|l| l.starts_with("prev:") && l.ends_with("kind=holding")) { return Err(format!("the forward did not land in the holding cell: {:?}", held)); }
+	// (3)
+	let mgr = net.nodes[t].node.encode();
+	let c0_nums = vh::channel_restart_numbers(net.nodes[t].node, &net.ids[0], &c0);
+	// (4)
+	for _ in 0..40 { if net.queued(2, 1) > 0 { net.deliver(2, 1); } else if net.queued(1, 2) > 0 { net.deliver(1, 2); } else { break; } }
+	for _ in 0..3 { if net.nodes[2].node.needs_pending_htlc_processing() { net.forward(2); } }
+	net.process_events(2);
+	let hb = net.pays[pb].hash;
+	if !net.claimable[2].iter().any(|c| c.0 == hb) { return Err("the forwarded HTLC did not become claimable at node 2".into()); }
+	if vh::channel_restart_numbers(net.nodes[t].node, &net.ids[0], &c0) != c0_nums { return Err("c0 moved after the manager was written".into()); }
+	// (5)
+	let mons: Vec<Vec<u8>> = vec![net.nodes[t].chain_monitor.chain_monitor.get_monitor(c0).unwrap().encode(), net.nodes[t].chain_monitor.chain_monitor.get_monitor(c1).unwrap().encode()];
+	let listed_before = vh::monitor_outbound_htlcs_dump(&net.nodes[t].chain_monitor.chain_monitor.get_monitor(c1).unwrap());
+	let ev0 = net.events[0].len();
+	net.restart_from(t, &mgr, &mons).map_err(|e| format!("restart failed: {}", e))?;
+	net.process_events(t);
+	let closed_c1 = net.events[t].iter().any(|e| matches!(e, Event::ChannelClosed { channel_id, reason: ClosureReason::OutdatedChannelManager, .. } if *channel_id == c1));
+	let c0_resumed = net.nodes[t].node.list_channels().iter().any(|c| c.channel_id == c0);
+	if !closed_c1 || !c0_resumed { return Err(format!("unexpected restart outcome: c1 closed as OutdatedChannelManager = {}, c0 resumed = {}", closed_c1, c0_resumed)); }
+	// (6)
+	net.reconnect(1, 0); net.reconnect(1, 2);
+	net.settle(10);
+	let upstream_failed = net.events[0][ev0..].iter().any(|e| matches!(e, Event::PaymentFailed { payment_hash: Some(h), .. } if *h == hb));
+	let c0_inbound_left = net.nodes[t].node.list_channels().iter().filter(|c| c.channel_id == c0).map(|c| c.pending_inbound_htlcs.len()).sum::<usize>();
+	// (7) node 2 claims; t's commitment of c1 and node 2's preimage claim confirm
+	net.claimable[2].retain(|c| c.0 != hb);
+	net.claim(pb);
+	net.settle(4);
+	let funding = net.nodes[t].chain_monitor.chain_monitor.get_monitor(c1).unwrap().get_funding_txo();
+	let commit = net.nodes[t].tx_broadcaster.txn_broadcasted.lock().unwrap().iter().find(|tx| tx.input.len() == 1 && tx.input[0].previous_output.txid == funding.txid && tx.input[0].previous_output.vout == funding.index as u32).cloned().ok_or("t did not broadcast a commitment transaction of c1")?;
+	all_nodes_blocks(&mut net, |n| { mine_transaction(n, &commit); });
+	net.settle(4);
+	let commit_txid = commit.compute_txid();
+	let claim2: Vec<bitcoin::Transaction> = net.nodes[2].tx_broadcaster.txn_broadcasted.lock().unwrap().iter().filter(|tx| tx.input.iter().any(|i| i.previous_output.txid == commit_txid)).cloned().collect();
+	let claim_tx = claim2.last().cloned().ok_or("node 2 did not broadcast a preimage claim of the HTLC output")?;
+	all_nodes_blocks(&mut net, |n| { mine_transaction(n, &claim_tx); });
+	all_nodes_blocks(&mut net, |n| { connect_blocks(n, ANTI_REORG_DELAY + 1); });
+	for _ in 0..3 { net.settle(6); }
+	let claimed_downstream = net.events[2].iter().any(|e| matches!(e, Event::PaymentClaimed { payment_hash, .. } if *payment_hash == hb));
+	let claim_spends_htlc = claim_tx.input.iter().any(|i| i.previous_output.txid == commit_txid && commit.output.get(i.previous_output.vout as usize).map(|o| o.value.to_sat() == amt_b / 1000).unwrap_or(false));
+	let forwarded_ev = net.events[t].iter().any(|e| matches!(e, Event::PaymentForwarded { .. }));
+	let v_c0_end = vh::channel_value_to_self_msat(net.nodes[t].node, &net.ids[0], &c0);
+	let payer_sent = net.events[0].iter().any(|e| matches!(e, Event::PaymentSent { payment_hash, .. } if *payment_hash == hb));
+	let text = format!("seed {}: HTLC {} ({} msat) 0→1→2; manager of node 1 written with the forward in c1's holding cell (c1 monitor then listed {:?}); after the restart c1 closed as OutdatedChannelManager, c0 resumed; payer got PaymentFailed = {}, inbound HTLCs left on c0 at node 1 = {}; node 2 PaymentClaimed = {}, its on-chain claim spends the {}-sat HTLC output of node 1's commitment = {}; node 1 PaymentForwarded = {}, payer PaymentSent = {}; node 1's balance on c0 {} → {:?} msat",
+		seed, hex(&hb.0[..4]), amt_b, listed_before.iter().map(|l| l.split(' ').filter(|x| !x.starts_with("hash=")).collect::<Vec<_>>().join(" ")).collect::<Vec<_>>(), upstream_failed, c0_inbound_left, claimed_downstream, amt_b / 1000, claim_spends_htlc, forwarded_ev, payer_sent, v_c0_start, v_c0_end);
+	let loss = upstream_failed && claimed_downstream && claim_spends_htlc && !payer_sent && v_c0_end.map(|v| v <= v_c0_start).unwrap_or(true);
+	std::mem::forget(net);
+	Ok((text.clone(), if loss { Some(format!("node 1 paid {} msat downstream (claimed on chain by node 2) and received nothing upstream (the HTLC was failed back on restart, the payer saw PaymentFailed)", amt_b)) } else { None }))
 }
 
 /// Reference run → ops for the run model (Restart.step), checked against the live node at every point.
